@@ -23,9 +23,9 @@ import (
 type CloseMode int
 
 const (
-	Open        CloseMode = iota
-	PeerClosed            // orderly close: reads see EOF after draining, writes fail with EPIPE
-	PeerClosedSilent      // writes are accepted and dropped, the error surfaces on the next read (ECONNRESET)
+	Open             CloseMode = iota
+	PeerClosed                 // orderly close: reads see EOF after draining, writes fail with EPIPE
+	PeerClosedSilent           // writes are accepted and dropped, the error surfaces on the next read (ECONNRESET)
 )
 
 // Conn is the rend side of a simulated connection.
